@@ -203,7 +203,7 @@ theorem sameA_opPick (s : St) (call pn : Nat) (m : String) (ctx : CtxKind) (dl :
                 · exact SameA.refl s
                 · simp only
                   split
-                  · exact (show SameA s { s with rr := (s.rr + 1) % 2 ^ 32 } from ⟨rfl, rfl, rfl, rfl, rfl⟩).trans
+                  · exact (show SameA s { s with rr := (s.rr + 1) % 2 ^ 64 } from ⟨rfl, rfl, rfl, rfl, rfl⟩).trans
                       (sameA_finishPick _ _ _ _ _ _ _ _ _)
                   · exact ⟨rfl, rfl, rfl, rfl, rfl⟩
               · have h1 := sameA_chooseSlot s c l key
